@@ -103,6 +103,12 @@ type End struct {
 
 	Stall time.Time // no delivery to this end before this instant
 
+	// RecvWindow > 0: flow control. A writer blocks while this end already holds that many
+	// undelivered + unread bytes (a slow or stalled reader exerts back-pressure, as TCP does).
+	RecvWindow  int
+	writerWake  chan struct{}
+	writersWait int
+
 	Latency time.Duration
 	Seg     SegMode
 
@@ -134,7 +140,7 @@ func newNetwork(e *Engine) *Network { return &Network{e: e} }
 func (n *Network) newPipe() *Pipe {
 	p := &Pipe{ID: len(n.pipes), net: n}
 	mk := func(side string) *End {
-		return &End{pipe: p, name: fmt.Sprintf("c%d.%s", p.ID, side), e: n.e, readWake: make(chan struct{}, 1),
+		return &End{pipe: p, name: fmt.Sprintf("c%d.%s", p.ID, side), e: n.e, readWake: make(chan struct{}, 1), writerWake: make(chan struct{}, 1),
 			CutAt: -1, Latency: n.Latency, Seg: n.Seg}
 	}
 	p.Cli, p.Srv = mk("cli"), mk("srv")
@@ -215,6 +221,7 @@ func (c *End) Read(p []byte) (int, error) {
 			n := copy(p, c.rbuf)
 			c.rbuf = c.rbuf[n:]
 			c.TotalRead += int64(n)
+			c.freeWindow()
 			f := c.OnRead
 			c.mu.Unlock()
 			if f != nil {
@@ -242,6 +249,9 @@ func (c *End) Read(p []byte) (int, error) {
 }
 
 func (c *End) Write(p []byte) (int, error) {
+	if err := c.waitWindow(len(p)); err != nil {
+		return 0, err
+	}
 	c.mu.Lock()
 	defer c.mu.Unlock()
 	n, err := c.writeLocked(p)
@@ -301,6 +311,52 @@ func (c *End) writeLocked(p []byte) (int, error) {
 	return len(p), nil
 }
 
+// waitWindow blocks the writer while the peer's receive window is full.
+func (c *End) waitWindow(n int) error {
+	peer := c.peer
+	first := true
+	for {
+		peer.mu.Lock()
+		w := peer.RecvWindow
+		held := len(peer.inflight) + len(peer.rbuf)
+		gone := peer.closed || peer.rTerm != nil
+		if w <= 0 || gone || held == 0 || held+n <= w {
+			if !first {
+				peer.writersWait--
+			}
+			peer.freeWindow() // pass the baton to the next blocked writer, if any
+			peer.mu.Unlock()
+			return nil
+		}
+		if first {
+			peer.writersWait++
+			first = false
+			c.e.Fault("conn.writer_blocked_by_backpressure")
+		}
+		peer.mu.Unlock()
+		c.mu.Lock()
+		closed := c.closed
+		c.mu.Unlock()
+		if closed {
+			peer.mu.Lock()
+			peer.writersWait--
+			peer.mu.Unlock()
+			return &net.OpError{Op: "write", Net: "tcp", Err: errClosed}
+		}
+		<-peer.writerWake
+	}
+}
+
+// freeWindow wakes blocked writers after this end consumed data or died. c.mu held.
+func (c *End) freeWindow() {
+	if c.writersWait > 0 {
+		select {
+		case c.writerWake <- struct{}{}:
+		default:
+		}
+	}
+}
+
 // push appends to the peer's in-flight queue. c.mu held.
 func (c *End) push(p []byte) {
 	peer := c.peer
@@ -332,7 +388,12 @@ func (c *End) Close() error {
 	w := c.waiting
 	c.waiting = false
 	f := c.OnClose
+	c.freeWindow()
 	c.mu.Unlock()
+	// a writer of ours blocked on the peer's window must notice that we are closed
+	c.peer.mu.Lock()
+	c.peer.freeWindow()
+	c.peer.mu.Unlock()
 	if w {
 		select {
 		case c.readWake <- struct{}{}:
@@ -529,6 +590,7 @@ func (c *End) terminate(err error, discard bool, why string) {
 	c.rTerm = err
 	c.inflight = nil
 	c.marks = nil
+	c.freeWindow()
 	dropped := 0
 	if discard {
 		dropped = len(c.rbuf)
@@ -543,6 +605,7 @@ func (c *End) terminate(err error, discard bool, why string) {
 		peer.mu.Lock()
 		peer.closed = true
 		peer.wakeReader()
+		peer.freeWindow()
 		peer.mu.Unlock()
 	}
 	c.e.Logf("net."+why, "%s %v after %d bytes (dropped %d unread)", c.name, err, c.TotalDelivered, dropped)
@@ -561,6 +624,7 @@ func (n *Network) closeAll() {
 			c.mu.Lock()
 			c.closed = true
 			c.waiting = false
+			c.freeWindow()
 			c.mu.Unlock()
 			select {
 			case c.readWake <- struct{}{}:
